@@ -132,3 +132,62 @@ def expected_pairs(struct):
         return [(struct[1],)]
     lhs, rhs = struct[1]
     return [(a, b) for a in leaves(lhs) for b in leaves(rhs)]
+
+
+def placement_tasks(prog, tier, only_kinds=None):
+    """tasks (for rules_rounding.run_parallel) of the QPLACE rule: every base accumulate spelling applied to the cleared quire with one posit p
+    (the other factor ONE) must leave exactly +p / -p: to_posit of the result is p resp. -p for every bit pattern p"""
+    import collections
+    import rules_routing
+    import rules_rounding as RR
+    ptasks = []
+    for q in QTYS:
+        pty = q.pty
+        P = pty.tykey
+        one = pty.one
+        specs = []
+        for tr, flip in (('core::ops::AddAssign', False), ('core::ops::SubAssign', True)):
+            p1 = find_assign_impl(prog, q, tr, P)
+            if p1:
+                specs.append(('<%s as %s<P>>' % (q.name, tr.split('::')[-1]), p1, 'one', flip))
+            p2 = find_assign_impl(prog, q, tr, '(%s, %s)' % (P, P))
+            if p2:
+                specs.append(('<%s as %s<(P,ONE)>>' % (q.name, tr.split('::')[-1]), p2, 'pair', flip))
+                specs.append(('<%s as %s<(ONE,P)>>' % (q.name, tr.split('::')[-1]), p2, 'pair_r', flip))
+        for nm, flip in (('add_product', False), ('sub_product', True)):
+            pi = prog.inherent(q.tykey, nm)
+            if pi:
+                specs.append(('%s::%s(p, ONE)' % (q.name, nm), pi, 'inh2', flip))
+        if q.nf > 1 and tier == 'quick':
+            specs = [s_ for s_ in specs if s_[2] in ('one', 'pair')]      # the multi-limb quire is the expensive one: all spellings in the thorough tier
+        if only_kinds is not None:
+            specs = [s_ for s_ in specs if (s_[2], s_[3]) in only_kinds]
+        for label, path, kind, flip in specs:
+            def make_state(I, bits, negative, path=path, kind=kind, q=q, pty=pty, one=one):
+                st = q.state(q.zero_cell())
+                ref = self_ref(st, True)
+                pv = RR.posit_input(pty, bits, negative)
+                ov = AAgg(pty.tykey, [AInt.const(pty.bits, True, one)])
+                if kind == 'one':
+                    args = [ref, pv]
+                elif kind == 'pair':
+                    args = [ref, AAgg('(tuple)', [pv, ov])]
+                elif kind == 'pair_r':
+                    args = [ref, AAgg('(tuple)', [ov, pv])]
+                else:
+                    args = [ref, pv, ov]
+                o = I.run(path, args)
+                if o.kind != 'return':
+                    return None
+                return final_state(I, o, args)
+            for sg in (False, True):
+                for par in (0, 1, 2, 3):
+                    if q.nf == 1 and par:
+                        continue
+
+                    def task(c, pr, q=q, ms=make_state, flip=flip, label=label, sg=sg, par=par):
+                        kf = (lambda k, par=par: k % 4 == par) if q.nf > 1 else None
+                        c_, p_ = rules_routing.quire_trip(c, pr, q, ms, flip, 'QPLACE', label, signs=(sg,), kfilter=kf)
+                        return collections.Counter(cells=c_, proved=p_)
+                    ptasks.append((task, (), {}))
+    return ptasks
